@@ -23,8 +23,10 @@ type appOp struct {
 
 type txSpec struct {
 	tid      int
-	cyclic   bool          // SendType cyclic with a 1 ms cycle time (real ticker: ticks are nondeterministic)
-	cycle    time.Duration // cycle time of an event message (no ticker; it is the send timeout, 0 = the default of 1 s)
+	cyclic   bool          // SendType cyclic with a positive cycle time (1 ms unless cycle is set; real ticker: ticks are nondeterministic)
+	cycle    time.Duration // cycle time of the message (it is the send timeout, 0 = the default of 1 s)
+	cycType  bool          // SendType cyclic whatever the cycle time is (cycle 0: must never get a ticker)
+	noType   bool          // SendType none (default: event)
 	startOn  bool          // cyclic transmission is already enabled when the transmitter starts, the wake-up channel is empty
 	hookFail map[int]bool
 	hookLock map[int]bool
@@ -93,6 +95,24 @@ func (r *runner) waitEvt(t int, d time.Duration) bool {
 		case <-r.w.evt[t]:
 		case <-deadline:
 			noteTimeout()
+			return false
+		}
+	}
+}
+
+// waitArrive: like waitEvt, but not showing up is a legitimate outcome (no tick).
+func (r *runner) waitArrive(t int, d time.Duration) bool {
+	deadline := time.After(d)
+	for {
+		r.w.mu.Lock()
+		ok := r.w.waiting[t] != nil || r.w.done[t]
+		r.w.mu.Unlock()
+		if ok {
+			return true
+		}
+		select {
+		case <-r.w.evt[t]:
+		case <-deadline:
 			return false
 		}
 	}
@@ -275,6 +295,14 @@ func (r *runner) enabled() []action {
 			if r.w.owner != a.tid {
 				continue
 			}
+		case "waittick":
+			// waiting for a tick only makes sense once the loop is back in its select: while the
+			// transmitter sits at the pause point before it its own step comes first
+			// (only the pause point after a flag read: a transmitter that is busy transmitting tick after tick
+			// must not starve the application)
+			if p := wt[op.m]; p != nil && p.kind == "P" && !r.isDone(op.m) {
+				continue
+			}
 		}
 		acts = append(acts, action{kind: "app", a: a})
 	}
@@ -357,11 +385,27 @@ func (r *runner) exec(a action) {
 			}
 		case "waittick":
 			if r.parked(op.m) {
-				select {
-				case <-w.evt[op.m]:
-					w.notify(op.m)
+				wait := 40 * time.Millisecond
+				if !w.msgs[op.m].flag && !w.msgs[op.m].token {
+					wait = 3 * time.Millisecond // disabled: only a stale tick or a ticker that should not run can show up
+				}
+				if op.v > 0 {
+					wait = time.Duration(op.v) * time.Millisecond
+				}
+				// (arrival = the thread is at an interface point or has returned; a stale notification does not count)
+				if r.waitArrive(op.m, wait) {
 					r.noteWake(op.m)
-				case <-time.After(40 * time.Millisecond):
+				} else if d := w.msgs[op.m].desc; d.SendType == descriptor.SendTypeCyclic && d.CycleTime > 0 && d.CycleTime <= time.Millisecond &&
+					!w.cancelled && w.msgs[op.m].flag && !w.msgs[op.m].token {
+					// a ticker with a cycle time of at most 1 ms that is running would have ticked long ago;
+					// wait much longer before saying so: NT.m = no tick although the loop sat in its select
+					// (whether the ticker should be running there is decided by the model; the descriptor and
+					// the flag the harness set only decide how long the harness is prepared to wait)
+					if r.waitArrive(op.m, time.Second) {
+						r.noteWake(op.m)
+					} else {
+						w.emit(fmt.Sprintf("NT.%x", op.m))
+					}
 				}
 			}
 		}
@@ -389,10 +433,14 @@ func setup(sc scenario, dir *directed) (*runner, string) {
 		d := &descriptor.Message{Name: fmt.Sprintf("Tx%d", x.tid), ID: uint32(x.tid), SendType: descriptor.SendTypeEvent}
 		role := "tx"
 		d.CycleTime = x.cycle
-		if x.cyclic {
+		if x.noType {
+			d.SendType = descriptor.SendTypeNone
+		}
+		if x.cyclic || x.cycType {
 			d.SendType = descriptor.SendTypeCyclic
+		}
+		if x.cyclic && x.cycle == 0 {
 			d.CycleTime = time.Millisecond
-			role = "txc"
 		}
 		if x.startOn {
 			role += "on"
@@ -401,7 +449,8 @@ func setup(sc scenario, dir *directed) (*runner, string) {
 			hookFail: x.hookFail, hookLock: x.hookLock, txFail: x.txFail, flag: x.startOn}
 		w.msgs[x.tid] = m
 		r.threads = append(r.threads, x.tid)
-		cfg = append(cfg, fmt.Sprintf("%x:%s:%x", x.tid, role, int64(d.CycleTime)))
+		// the descriptor's facts; whether the message may get a ticker is computed by the model
+		cfg = append(cfg, fmt.Sprintf("%x:%s:%x:%x", x.tid, role, int64(d.CycleTime), uint8(d.SendType)))
 	}
 	mut := 0
 	if len(sc.txs) > 0 {
@@ -574,13 +623,64 @@ func tickOnScenario() scenario {
 			cat(wt, wt, []appOp{{kind: "offer", m: 2}}, wt)}}
 }
 
+// tickScenarioWith: the tick schedules for a given cycle time (1 ns: the smallest positive one).
+func tickScenarioWith(name string, cycle time.Duration) scenario {
+	sc := tickScenario()
+	sc.name = name
+	sc.txs[0].cycle = cycle
+	return sc
+}
+
+// tickFailScenario: the failure happens on a TICK-triggered transmission (k-th hook invocation or
+// k-th TransmitFrame fails); the transmitter has to return that error and start nothing more,
+// although further ticks are due.
+func tickFailScenario(kind string, k int, startOn bool) scenario {
+	wt := []appOp{{kind: "waittick", m: 2}}
+	x := txSpec{tid: 2, cyclic: true, startOn: startOn}
+	if kind == "hook" {
+		x.hookFail = map[int]bool{k: true}
+	} else {
+		x.txFail = map[int]bool{k: true}
+	}
+	first := wt
+	if !startOn {
+		first = cat(toggle(2, true), toggle(2, true), wt)
+	}
+	return scenario{name: "tickfail" + kind, txs: []txSpec{x},
+		apps: [][]appOp{cat(first, wt, wt, wt, wt, wt), cat(wt, wt, wt)}}
+}
+
+// notEligibleScenario: messages that must never get a ticker - send type event / none with a cycle
+// time, send type cyclic without one - toggled on, on again, off, on; a tick taken by such a
+// transmitter is a frame nobody asked for, a ticker with cycle time 0 is a panic.
+func notEligibleScenario(k int) scenario {
+	wt2, wt3 := []appOp{{kind: "waittick", m: 2, v: 4}}, []appOp{{kind: "waittick", m: 3, v: 4}}
+	cycles := []time.Duration{time.Nanosecond, 300 * time.Microsecond, time.Millisecond}
+	a := txSpec{tid: 2, cycle: cycles[k%3], noType: k%2 == 1, startOn: k%4 >= 2}
+	b := txSpec{tid: 3, cycType: true, cycle: 0, startOn: k%4 == 1}
+	return scenario{name: "noticker", txs: []txSpec{a, b},
+		apps: [][]appOp{
+			cat(toggle(2, true), wt2, toggle(2, true), wt2, toggle(2, false), toggle(2, true), wt2, []appOp{{kind: "offer", m: 2}}, wt2),
+			cat(toggle(3, true), wt3, toggle(3, false), toggle(3, true), wt3, []appOp{{kind: "offer", m: 3}}, wt3)}}
+}
+
 func randomScenario(rng *rand.Rand, k int) scenario {
 	sc := scenario{name: fmt.Sprintf("rand%d", k)}
 	ntx := 1 + rng.Intn(2)
 	for i := 0; i < ntx; i++ {
 		x := txSpec{tid: 2 + i, hookFail: map[int]bool{}, hookLock: map[int]bool{}, txFail: map[int]bool{}}
-		x.cycle = []time.Duration{0, 0, 700 * time.Microsecond, 40 * time.Millisecond, 3 * time.Second}[rng.Intn(5)]
+		x.cycle = []time.Duration{0, 0, time.Nanosecond, 700 * time.Microsecond, 40 * time.Millisecond, 3 * time.Second}[rng.Intn(6)]
 		x.startOn = rng.Intn(4) == 0
+		// send type: event (default), none, or cyclic WITHOUT a cycle time: never a ticker, so the schedule stays
+		// under the scheduler's control (messages with a ticker: the tick scenarios)
+		switch rng.Intn(4) {
+		case 0:
+			x.noType = true
+		case 1:
+			if x.cycle == 0 {
+				x.cycType = true
+			}
+		}
 		for j := 1; j <= 4; j++ {
 			if rng.Intn(3) == 0 {
 				x.hookLock[j] = true
